@@ -261,17 +261,26 @@ def steps(ctx, prog):
                 item = ch
                 new = [rest]
 
-            def some(path, case, item=item, new=new):
+            def some(path, case, item=item, new=new, at=at, m=m, this=this):
                 v = table.strip_gargs(path.value)
                 if not (v[0] == "agg" and v[1].endswith("Some#1") and v[2][0] == "agg" and v[2][1] == "tuple"):
                     return "expected Some((item, iter)), got %s" % show(v)
-                if v[2][2] != item:
-                    return "yields %s, expected %s" % (show(v[2][2]), show(item))
                 st = v[2][3]
                 got = [sym.mk_field(st, i) for i in range(len(new))]
-                if got != new:
-                    return "new state is %s, expected %s" % ([show(x) for x in got], [show(x) for x in new])
-                return None
+                if v[2][2] == item and got == new:
+                    return None
+                if m == "next":
+                    # the width of the first char read off its lead byte instead of scanning to the next boundary: for a `&str`
+                    # remainder (valid UTF-8 starting at a char) the two agree when the lead bytes the path admits all have that width
+                    for w in (1, 2, 3, 4):
+                        if _subst(item, at, Int(w)) == v[2][2] and [_subst(x, at, Int(w)) for x in new] == got:
+                            why = _width_justified(path, this, w)
+                            if why is None:
+                                return None
+                            return "takes the first char to be %d byte(s) long %s" % (w, why)
+                if v[2][2] != item:
+                    return "yields %s, expected %s" % (show(v[2][2]), show(item))
+                return "new state is %s, expected %s" % ([show(x) for x in got], [show(x) for x in new])
 
             def none(path, case):
                 return None if path.value == table.NONE else "expected None, got %s" % show(path.value)
@@ -308,6 +317,38 @@ def steps(ctx, prog):
             ps = sym.paths_of(b, prog)
             if len(ps) != 1 or list(ps[0].value[2:]) != want:
                 ctx.violation("TAB-STEP", "%s|%s" % (prog.config, fn), "%s() builds %s" % (fn, show(ps[0].value)), b.file())
+
+
+UTF8_WIDTH = {1: set(range(0x00, 0x80)), 2: set(range(0xC2, 0xE0)), 3: set(range(0xE0, 0xF0)), 4: set(range(0xF0, 0xF5))}
+UTF8_NOT_LEAD = set(range(0x80, 0xC2)) | set(range(0xF5, 0x100))      # never the first byte of a char in valid UTF-8
+
+
+def _subst(t, a, b):
+    if t == a:
+        return b
+    if isinstance(t, tuple):
+        return tuple(_subst(x, a, b) if isinstance(x, tuple) else x for x in t)
+    return t
+
+
+def _width_justified(path, this, w):
+    """None when the byte tests of the path on the first byte of `this` leave only lead bytes of UTF-8 width w (bytes that cannot start
+    a char of valid UTF-8 do not matter); otherwise the reason"""
+    holes = [("cidx", ("deref", ("as_bytes", this)), 0, False), ("index", ("deref", ("as_bytes", this)), Int(0))]
+    left = None
+    for c in path.conds:
+        a = table.norm_atom(byteset.canon_atom(table.strip_gargs(c)))
+        if a[0] in ("holds", "nholds") and a[1][0] == "byteclass" and a[1][1] in holes:
+            s_ = set()
+            for lo, hi in (a[1][2] if a[0] == "holds" else byteset.complement(a[1][2])):
+                s_ |= set(range(lo, hi + 1))
+            left = s_ if left is None else (left & s_)
+    if left is None:
+        return "without looking at its lead byte"
+    bad = sorted(left - UTF8_WIDTH[w] - UTF8_NOT_LEAD)
+    if bad:
+        return "also for the lead bytes {%s}, whose chars are not that long" % byteset.show_ranges(byteset.to_ranges(set(bad)))
+    return None
 
 
 def _tab(b, prog, rty, ty):
